@@ -18,7 +18,7 @@ func c12(p *P) {
 	r.Assumptions = []string{"AS1: WAL append durability (C11)", "AS6: go/types, go/ssa and the rule tables are correct"}
 	r.Rule("C12.R1", "BroadcastMessage: filter ≺ WAL append ≺ publish; nothing leaves when the filter refuses", 8)
 	r.Rule("C12.R2", "rebroadcastMessage: nothing leaves when the filter refuses", 3)
-	r.Rule("C12.R3", "consensus topic Publish only from the two broadcast functions", 2)
+	r.Rule("C12.R3", "consensus topic Publish only from the two broadcast functions", 3)
 	r.Rule("C12.R4", "start: every WAL entry re-arms the filter before the runner is returned", 3)
 	r.Rule("C12.R5", "filter decision table", 8)
 	r.Rule("C12.R6", "WAL entry = whole message; epoch = instance; distinct objects on read-back", 4)
@@ -31,7 +31,7 @@ func c12(p *P) {
 	if bm := p.fn("C12.R1", "f3.gpbftRunner.BroadcastMessage"); bm != nil {
 		fl := callSinks(bm, "equivocation filter", filter)
 		ap := callSinks(bm, "WAL append", walPkg+"Append")
-		pub := callSinks(bm, "publish", topicPublish)
+		pub := callSinksVia(bm, "publish", topicPublish)
 		bc := callSinksRe(bm, "chain broadcast", `BroadcastChain\(`)
 		out := append(append(append([]Sink{}, ap...), pub...), bc...)
 		p.guarded("C12.R1", bm, out, refuse)
@@ -63,7 +63,7 @@ func c12(p *P) {
 	}
 	// ---------- R2
 	if rb := p.fn("C12.R2", "f3.gpbftRunner.rebroadcastMessage"); rb != nil {
-		pub := callSinks(rb, "publish", topicPublish)
+		pub := callSinksVia(rb, "publish", topicPublish)
 		bc := callSinksRe(rb, "chain broadcast", `BroadcastChain\(`)
 		p.guarded("C12.R2", rb, append(append([]Sink{}, pub...), bc...), refuse)
 		for _, cs := range callsTo(rb, false, filter) {
@@ -91,11 +91,17 @@ func c12(p *P) {
 			}
 			nPub++
 			fnm := funcName(f)
-			r.Check(fnm == "f3.gpbftRunner.BroadcastMessage" || fnm == "f3.gpbftRunner.rebroadcastMessage", "C12.R3", "consensus topic Publish called from "+fnm, p.c.InstrPos(cs.Instr), "filtered path", "Publish on the consensus topic outside the two filtered functions — bypasses the equivocation filter and the WAL")
+			okPub := map[string]bool{"f3.gpbftRunner.BroadcastMessage": true, "f3.gpbftRunner.rebroadcastMessage": true}
+			r.Check(okPub[fnm] || p.onlyReachedFrom(f, okPub, 0), "C12.R3", "consensus topic Publish called from "+fnm, p.c.InstrPos(cs.Instr), "filtered path", "Publish on the consensus topic outside the two filtered functions — bypasses the equivocation filter and the WAL")
 		}
 	}
-	if nPub < 2 {
-		r.Undecided("C12.R3", "publish sites", fmt.Sprintf("%d publish sites on the consensus topic found (2 confirmed)", nPub))
+	if nPub < 1 {
+		r.Undecided("C12.R3", "publish sites", fmt.Sprintf("%d publish sites on the consensus topic found", nPub))
+	}
+	for _, fnm := range []string{"f3.gpbftRunner.BroadcastMessage", "f3.gpbftRunner.rebroadcastMessage"} {
+		if f := p.c.Fn(fnm); f != nil {
+			r.Check(len(callSinksVia(f, "publish", topicPublish)) >= 1, "C12.R3", fnm+": publishes (directly or through a private helper)", p.c.Pos(f.Pos()), "publish site present", "no publish reachable from "+fnm)
+		}
 	}
 	// ---------- R4
 	if nr := p.fn("C12.R4", "f3.newRunner"); nr != nil {
